@@ -1,4 +1,33 @@
 CFG = dict(
     id="C06", props="Props/C06.v", harness="c06", shims=["c2--c06.go", "data--c06.go"], tags="verif",
-    trusted_base=[], assumptions=[], level_text="stub", level_note="stub",
+    trusted_base=[
+        "ECDH commutativity dh a (pub b) = dh b (pub a) of crypto/elliptic P-521 (ScalarMult/ScalarBaseMult): the ONLY hypothesis of the agreement "
+        "theorems, visible in every statement; checked at run time on every generated pair against crypto/ecdh (oracle key ecdh-contract), never proved",
+        "big.Int.Bytes() returns the big-endian value without leading zero bytes (modelled as: dh returns a byte list of ANY length)",
+        "the cut of Session.session(), connectContextInner, Listener.talk and handle() into the events Hello / HelloReply / RekeySend / DataSend / "
+        "BatchSend / RekeyRecv / ReplyRecv / WriteFail / ReplyLost / Forget / Reregister follows the Go source by hand; one client, one server, "
+        "non-channel exchanges, one exchange at a time (the code serialises them in Session.listen)",
+        "crypto/cipher.xorBytes (linked by subtle.XorOp) is the byte-wise XOR of the shorter of its arguments (sampled, not proved)",
+        "a re-key announcement decrypted with a different key does not parse as a P-521 point (the model leaves the server share unchanged; "
+        "observed on every such case, probability of the contrary is negligible)",
+        "the in-memory net.Conn of the harness (write fails / reply dropped before or after the server handled the request) stands for the network",
+    ],
+    assumptions=[
+        "private keys are arbitrary values (model input); payloads arbitrary byte lists; histories arbitrary event lists",
+        "agreement theorems carry the side condition `safe`: no reply is lost while a key announcement is unacknowledged (keysNext pending, or the "
+        "lost reply is the SvComplete with the server key); those three history shapes are refuted witnesses and known findings",
+        "single device per connection: proxy / multi-device containers and channel mode (conn.keys is a per-connection copy that a re-key during "
+        "a channel does not refresh) are outside the model",
+    ],
+    level_text="22 theorems over the Gallina model of subtle.XorOp / Chunk.KeyCrypt, KeyPair.fillShared and the key state machine of both ends "
+               "(keyNextSync, keyCheckSync, keyCheckRevert, keySessionGenerate, keySessionSync, keyListenerInit, keyCryptAndUpdate, the per-connection key copy): "
+               "the cipher is an involution and keeps the length for ALL buffers and ALL keys; a short ECDH secret keeps the tail of the previous share and "
+               "that is harmless while previous shares are equal; for ALL histories (induction over the event list: handshakes, re-keys, traffic, failed writes, "
+               "harmless reply losses, server restarts, re-registrations, ECDH outputs of any length) both ends hold the same share and keysNext = nil whenever "
+               "the client is idle and registered; a failed write reverts; payloads round-trip under agreement. Three fault shapes violate the property on the "
+               "real code (refuted in Coq, reproduced by the harness on every run, known findings); a fourth (re-key merged into a Multi container) was repaired. "
+               "The model is tied to /repo by ~1600 cases per run: real XorOp/KeyCrypt, real P-521 KeyPairs incl. forced short secrets, and scripted histories "
+               "through the real session()/handle() with injected faults, each evaluated by the model inside Coq.",
+    level_note="Proof is about the model; the tie to the code is differential (distribution in the evidence). Trusted: Coq kernel+vm_compute, ECDH commutativity "
+               "(section hypothesis), the harness and its in-memory connection, the hand-made cut into events. No axioms.",
 )
